@@ -86,15 +86,18 @@ async fn configure(s: &Socket, kind: Kind, local_is_server: bool, uring: bool) {
   }
 }
 
-async fn collect(s: &Socket, want: usize) -> Vec<Vec<Vec<u8>>> {
+async fn collect(s: &Socket, want: usize, writer_done: &std::sync::atomic::AtomicBool) -> Vec<Vec<Vec<u8>>> {
   let mut got = vec![];
+  let t0 = std::time::Instant::now();
   // keep reading until a timeout (RCVTIMEO) once everything expected is in, one extra read
-  // checks nothing spurious follows
+  // checks nothing spurious follows; a timeout only counts once the raw peer has written its whole transcript
+  // (byte-at-a-time writes take seconds on a loaded machine)
   loop {
     let fast = got.len() >= want;
     let r = if fast { tokio::time::timeout(Duration::from_millis(150), s.recv_multipart()).await.unwrap_or(Err(rzmq::ZmqError::Timeout)) } else { s.recv_multipart().await };
     match r {
       Ok(m) => got.push(m.into_iter().map(|f| f.data().unwrap_or(&[]).to_vec()).collect()),
+      Err(_) if !fast && !writer_done.load(std::sync::atomic::Ordering::SeqCst) && t0.elapsed() < Duration::from_secs(90) => continue,
       Err(_) => break,
     }
     if got.len() > want + 3 {
@@ -183,8 +186,11 @@ async fn scenario(rep: &mut Report, kind: Kind, local: SocketType, local_listens
     return;
   };
   // writer in the background so that reads of rzmq's own handshake bytes do not block us
+  let writer_done = std::sync::Arc::new(std::sync::atomic::AtomicBool::new(false));
+  let wd = writer_done.clone();
   let w = tokio::spawn(async move {
     let r = raw.write_segments(&segs, pause).await;
+    wd.store(true, std::sync::atomic::Ordering::SeqCst);
     // keep the connection open and drain whatever rzmq sends
     let (_b, _eof) = raw.read_for(Duration::from_millis(2500), 0).await;
     drop(raw);
@@ -194,7 +200,7 @@ async fn scenario(rep: &mut Report, kind: Kind, local: SocketType, local_listens
   if local == SocketType::Router {
     // ROUTER prefixes the (generated) identity; compare payload frames only
   }
-  let mut got = collect(&s, expected.len()).await;
+  let mut got = collect(&s, expected.len(), &writer_done).await;
   if local == SocketType::Router {
     for m in got.iter_mut() {
       if !m.is_empty() {
@@ -266,6 +272,8 @@ async fn brain_scenario(rep: &mut Report, mech: &str, coalesce: bool, rng: &mut 
   };
   let msgs = data_messages(rng, 4);
   let msgs2 = msgs.clone();
+  let brain_done = std::sync::Arc::new(std::sync::atomic::AtomicBool::new(false));
+  let bd = brain_done.clone();
   let brain = tokio::spawn(async move {
     let mut side = Side::new(brain_cfg.engine(true));
     let o = side.eng.start();
@@ -306,10 +314,11 @@ async fn brain_scenario(rep: &mut Report, mech: &str, coalesce: bool, rng: &mut 
         break;
       }
     }
+    bd.store(true, std::sync::atomic::Ordering::SeqCst);
     let _ = raw.read_for(Duration::from_millis(1500), 0).await;
     sent_data
   });
-  let got = collect(&s, msgs.len()).await;
+  let got = collect(&s, msgs.len(), &brain_done).await;
   brain.abort();
   rep.case(&("brain", mech, coalesce), true);
   if got != msgs {
